@@ -62,7 +62,32 @@ func main() {
 	overlay := flag.String("overlay", "", "JSON file {path: content} of in-memory replacements (self-test)")
 	listRules := flag.Bool("rules", false, "list rules and exit")
 	noSelftest := flag.Bool("no-selftest", false, "thorough tier without the variant self-test")
+	selftestOnly := flag.String("selftest", "", "run only the variant self-test of the given property (comma list or 'all') and print the outcome")
 	flag.Parse()
+
+	if *selftestOnly != "" {
+		var ids []string
+		if *selftestOnly == "all" {
+			for id := range registry {
+				ids = append(ids, id)
+			}
+			sort.Strings(ids)
+		} else {
+			ids = strings.Split(*selftestOnly, ",")
+		}
+		rc := 0
+		for _, id := range ids {
+			st := runSelftest(*repo, *verif, id)
+			fmt.Printf("selftest %s: variants=%d killed=%d survived=%v equivalents=%d silent=%d noisy=%v\n", id, st.Variants, st.Killed, st.Survived, st.Equivalent, st.Silent, st.Noisy)
+			for _, s := range st.Skipped {
+				fmt.Println("  skipped:", s)
+			}
+			if len(st.Survived) > 0 || len(st.Noisy) > 0 {
+				rc = 3
+			}
+		}
+		os.Exit(rc)
+	}
 
 	if *explain != "" {
 		b, err := os.ReadFile(*explain)
@@ -158,11 +183,11 @@ func main() {
 			}
 			continue
 		}
-		if st != nil && len(st.Survived) > 0 {
+		if st != nil && (len(st.Survived) > 0 || len(st.Noisy) > 0) {
 			// a variant that should be reported but is not: the checker lost power; this
 			// is a defect of the checker, not of the repository: say so loudly but
 			// do not blame the repository
-			fmt.Printf("SELFTEST property=%s survived=%v\n", id, st.Survived)
+			fmt.Printf("SELFTEST property=%s survived=%v noisy=%v\n", id, st.Survived, st.Noisy)
 		}
 		if res.count("violation") > 0 {
 			replay := filepath.Join(*verif, "evidence", "violations", id+".json")
